@@ -1208,3 +1208,43 @@ def bytes_shape(g, x, fr):
         else:
             out.append((k, v))
     return out
+
+
+def applied_call(e, ctx, call):
+    """(function expression, argument list) a call stands for when its
+    callee does nothing with its arguments but `return func(*args)` -
+    possibly inside with blocks - for one of its parameters `func` and its
+    star parameter (e.g. `self._run_timed(seconds, f, a)` -> f(a));
+    None otherwise"""
+    import ast as _ast
+    from ..model import walk_own
+    try:
+        r = e.r.resolve_call(call, ctx)
+    except Exception:
+        return None
+    if len(r.targets) != 1:
+        return None
+    f = r.targets[0].func
+    node = f.node
+    va = node.args.vararg.arg if node.args.vararg else None
+    if va is None:
+        return None
+    rets = [x for x in walk_own(node) if isinstance(x, _ast.Return)]
+    calls = [x for x in walk_own(node) if isinstance(x, _ast.Call) and
+             isinstance(x.func, _ast.Name) and x.func.id in f.params and
+             len(x.args) == 1 and isinstance(x.args[0], _ast.Starred) and
+             isinstance(x.args[0].value, _ast.Name) and
+             x.args[0].value.id == va and not x.keywords]
+    if len(rets) != 1 or len(calls) != 1 or rets[0].value is not calls[0]:
+        return None
+    own = f.params[1:] if f.params[:1] in (['self'], ['cls']) and \
+        f.cls is not None else list(f.params)
+    own = [p for p in own if p != va]
+    name = calls[0].func.id
+    if name not in own or call.keywords or any(
+            isinstance(a, _ast.Starred) for a in call.args):
+        return None
+    i = own.index(name)
+    if i >= len(call.args):
+        return None
+    return call.args[i], list(call.args[len(own):])
